@@ -19,6 +19,7 @@ from __future__ import annotations
 from typing import TYPE_CHECKING
 
 from gemseo.core.chains.parallel_chain import MDOParallelChain
+from gemseo.core.derivatives.jacobian_operator import JacobianOperator
 
 if TYPE_CHECKING:
     from collections.abc import Iterable
@@ -90,13 +91,25 @@ class MDOAdditiveChain(MDOParallelChain):
 
         # Sum the Jacobians of the required outputs across disciplines
         for output_name in self._outputs_to_sum:
-            self.jac[output_name] = {}
+            if output_name not in output_names:
+                continue
+
             for input_name in input_names:
                 disciplinary_jacobians = [
                     discipline.jac[output_name][input_name]
                     for discipline in self.disciplines
-                    if input_name in discipline.jac[output_name]
+                    if output_name in discipline.jac
+                    and input_name in discipline.jac[output_name]
                 ]
+                if not disciplinary_jacobians:
+                    # Keep the zero block set by MDOParallelChain._compute_jacobian.
+                    continue
 
-                assert disciplinary_jacobians
-                self.jac[output_name][input_name] = sum(disciplinary_jacobians)
+                # JacobianOperator + array is defined, array + JacobianOperator is not.
+                disciplinary_jacobians.sort(
+                    key=lambda jac: not isinstance(jac, JacobianOperator)
+                )
+                total = disciplinary_jacobians[0]
+                for jacobian in disciplinary_jacobians[1:]:
+                    total = total + jacobian
+                self.jac[output_name][input_name] = total
